@@ -705,17 +705,47 @@ package erpc
 //@ trusted (*pluginSingleContainer).postDial
 //@   flags libframe
 //@   requires[status-preparing] @C13 as(sess, type(*session)).status == statusPreparing
-//@   modifies as(sess, type(*session)).sessionAge, as(sess, type(*session)).contextAge, as(as(sess, type(*session)).socket, type(*socket.socket)).swap, lockset, waitgroups
+//@   modifies as(sess, type(*session)).sessionAge, as(sess, type(*session)).contextAge, as(as(sess, type(*session)).socket, type(*socket.socket)).swap, as(as(sess, type(*session)).socket, type(*socket.socket)).id, lockset, waitgroups, mapviews
 //@   ghostset ghost.postDialRuns = old(ghost.postDialRuns) + 1
 
 // the per-attempt callback of the redial closure: resets the socket to the new
 // connection, keeps a user-assigned id, re-runs the dial hooks on a session that
 // is "preparing", and leaves "redialing" behind if a hook rejects
+// the dial callbacks assign the socket's id directly (no re-keying of the index):
+// that is only right BEFORE the dial hooks run, which may rename the session
+// through SetID and thereby index it. rawIDSetAt records the hook-run counter at
+// the moment of the direct assignment, rawID the value.
+//@ ghost global rawIDSetAt int
+//@ ghost global rawID int
+//@ trusted socket.(*socket).SetID in erpc.(*peer).Dial$1
+//@   params sock id
+//@   modifies as(sock, type(*socket.socket)).id, lockset, ghost.rawIDSetAt, ghost.rawID
+//@   ghostset ghost.rawIDSetAt = ghost.postDialRuns
+//@   ghostset ghost.rawID = id
+//@   ensures[set] as(sock, type(*socket.socket)).id == id
+//@   ensures[locks-restored] sameLocks()
+//@ trusted socket.(*socket).SetID in erpc.(*peer).Dial$2$1
+//@   params sock id
+//@   modifies as(sock, type(*socket.socket)).id, lockset, ghost.rawIDSetAt, ghost.rawID
+//@   ghostset ghost.rawIDSetAt = ghost.postDialRuns
+//@   ghostset ghost.rawID = id
+//@   ensures[set] as(sock, type(*socket.socket)).id == id
+//@   ensures[locks-restored] sameLocks()
+// C07: the first-dial callback gives the session its default id before the hooks
+//@ func (*peer).Dial$1
+//@   property C07
+//@   flags libframe frame-unchecked
+//@   requires sess != nil && sess.socket != nil && p != nil && p.pluginContainer != nil && istype(sess.socket, type(*socket.socket))
+//@   requires?[new-session-is-preparing] sess.status == statusPreparing
+//@   ensures[hooks-run-once] ghost.postDialRuns == old(ghost.postDialRuns) + 1
+//@   ensures[default-id-assigned-before-the-hooks] ghost.rawIDSetAt == old(ghost.postDialRuns)
+
 //@ func (*peer).Dial$2$1
 //@   property C13
 //@   requires sess != nil && sess.socket != nil && p != nil && p.pluginContainer != nil && istype(sess.socket, type(*socket.socket))
 //@   ensures[hooks-rerun] ghost.postDialRuns == old(ghost.postDialRuns) + 1
-//@   ensures[user-id-kept] oldIP != oldID ==> as(sess.socket, type(*socket.socket)).id == oldID
+//@   ensures[user-id-restored-before-the-hooks] oldIP != oldID ==> ghost.rawID == oldID && ghost.rawIDSetAt == old(ghost.postDialRuns)
+//@   ensures[default-id-refreshed-before-the-hooks] oldIP == oldID ==> ghost.rawIDSetAt == old(ghost.postDialRuns)
 //@   ensures[accepted-means-preparing] result == nil ==> sess.status == statusPreparing
 //@   ensures[rejected-back-to-redialing] result != nil ==> sess.status == statusRedialing
 
